@@ -26,7 +26,33 @@ impl Str {
     pub fn eq(&self, o: &Str) -> (r: bool) ensures r == (self@ == o@) { unimplemented!() }
     #[verifier::external_body]
     pub fn ne(&self, o: &Str) -> (r: bool) ensures r == (self@ != o@) { unimplemented!() }
+    // further std str methods a change might introduce: specified (identity ones) or left uninterpreted, so that such a change is DECIDED
+    // (the postcondition then fails unless the value flow is unchanged) instead of ending in "method not found"
+    #[verifier::external_body]
+    pub fn trim(&self) -> (r: &Str) ensures r@ == str_trim(self@) { unimplemented!() }
+    #[verifier::external_body]
+    pub fn trim_start(&self) -> (r: &Str) ensures r@ == str_trim_start(self@) { unimplemented!() }
+    #[verifier::external_body]
+    pub fn trim_end(&self) -> (r: &Str) ensures r@ == str_trim_end(self@) { unimplemented!() }
+    #[verifier::external_body]
+    pub fn to_lowercase(&self) -> (r: Str) ensures r@ == str_lower(self@) { unimplemented!() }
+    #[verifier::external_body]
+    pub fn to_uppercase(&self) -> (r: Str) ensures r@ == str_upper(self@) { unimplemented!() }
+    #[verifier::external_body]
+    pub fn to_string(&self) -> (r: Str) ensures r@ == self@ { unimplemented!() }
+    #[verifier::external_body]
+    pub fn as_str(&self) -> (r: &Str) ensures r@ == self@ { unimplemented!() }
+    #[verifier::external_body]
+    pub fn len(&self) -> (r: usize) ensures r == str_byte_len(self@) { unimplemented!() }
+    #[verifier::external_body]
+    pub fn is_empty(&self) -> (r: bool) ensures r == (self@.len() == 0) { unimplemented!() }
 }
+pub uninterp spec fn str_trim(s: Seq<char>) -> Seq<char>;
+pub uninterp spec fn str_trim_start(s: Seq<char>) -> Seq<char>;
+pub uninterp spec fn str_trim_end(s: Seq<char>) -> Seq<char>;
+pub uninterp spec fn str_lower(s: Seq<char>) -> Seq<char>;
+pub uninterp spec fn str_upper(s: Seq<char>) -> Seq<char>;
+pub uninterp spec fn str_byte_len(s: Seq<char>) -> nat;
 // string literals of the code
 pub uninterp spec fn LIT_MD5_BRACE() -> Seq<char>;   // "{MD5}"
 pub uninterp spec fn LIT_MD5() -> Seq<char>;         // "md5"
@@ -160,7 +186,7 @@ OBLIGATIONS = {
 KNOWN = {'verify_md5__known': 'KF-C29-md5-prefix-optional'}
 CANARIES = ['canary_md5', 'canary_clear']
 TRUSTED = [
-    'external_body Str (strip_prefix, starts_with, eq, ne): std str methods with their documented contracts; string literals as uninterpreted constants',
+    'external_body Str (strip_prefix, starts_with, eq, ne, trim, trim_start, trim_end, to_lowercase, to_uppercase, to_string, as_str, len, is_empty): std str methods with their documented contracts; string literals as uninterpreted constants',
     'external_body lit_md5_brace / lit_md5 / lit_argon2 and lit_prefixes_disjoint: the three literals of the code',
     'external_body compute_md5_password: uninterpreted digest D (MD5 crate and the hex/concat formatting are not verified)',
     'external_body password_hash_new / argon2_verify_is_ok / ParsedHash: PasswordHash::new and Argon2::verify_password as uninterpreted predicates',
